@@ -8,17 +8,63 @@ package deviceshare
 // witness paths are replayed against the real libraries.
 
 import (
+	"context"
 	"strconv"
 
 	corev1 "k8s.io/api/core/v1"
 	"k8s.io/apimachinery/pkg/api/resource"
 	metav1 "k8s.io/apimachinery/pkg/apis/meta/v1"
 	"k8s.io/apimachinery/pkg/types"
+	"k8s.io/kubernetes/pkg/scheduler/framework"
 
 	apiext "github.com/koordinator-sh/koordinator/apis/extension"
 	schedulingv1alpha1 "github.com/koordinator-sh/koordinator/apis/scheduling/v1alpha1"
+	koordinformers "github.com/koordinator-sh/koordinator/pkg/client/informers/externalversions"
+	schedinformers "github.com/koordinator-sh/koordinator/pkg/client/informers/externalversions/scheduling"
+	schedv1informers "github.com/koordinator-sh/koordinator/pkg/client/informers/externalversions/scheduling/v1alpha1"
+	schedlisters "github.com/koordinator-sh/koordinator/pkg/client/listers/scheduling/v1alpha1"
+	"github.com/koordinator-sh/koordinator/pkg/scheduler/frameworkext"
 	"github.com/koordinator-sh/koordinator/pkg/zzverif"
 )
+
+// the scheduler as PreBind sees it: a Device lister that knows the one node
+type zzvC19DevHandle struct {
+	frameworkext.ExtendedHandle
+	dev *schedulingv1alpha1.Device
+}
+type zzvC19Factory struct {
+	koordinformers.SharedInformerFactory
+	dev *schedulingv1alpha1.Device
+}
+type zzvC19Sched struct {
+	schedinformers.Interface
+	dev *schedulingv1alpha1.Device
+}
+type zzvC19SchedV1 struct {
+	schedv1informers.Interface
+	dev *schedulingv1alpha1.Device
+}
+type zzvC19DevInformer struct {
+	schedv1informers.DeviceInformer
+	dev *schedulingv1alpha1.Device
+}
+type zzvC19DevLister struct {
+	schedlisters.DeviceLister
+	dev *schedulingv1alpha1.Device
+}
+
+func (h *zzvC19DevHandle) KoordinatorSharedInformerFactory() koordinformers.SharedInformerFactory {
+	return &zzvC19Factory{dev: h.dev}
+}
+func (f *zzvC19Factory) Scheduling() schedinformers.Interface { return &zzvC19Sched{dev: f.dev} }
+func (s *zzvC19Sched) V1alpha1() schedv1informers.Interface   { return &zzvC19SchedV1{dev: s.dev} }
+func (v *zzvC19SchedV1) Devices() schedv1informers.DeviceInformer {
+	return &zzvC19DevInformer{dev: v.dev}
+}
+func (i *zzvC19DevInformer) Lister() schedlisters.DeviceLister { return &zzvC19DevLister{dev: i.dev} }
+func (l *zzvC19DevLister) Get(name string) (*schedulingv1alpha1.Device, error) {
+	return l.dev, nil
+}
 
 func zzvGPURes(core, mem int64) corev1.ResourceList {
 	return corev1.ResourceList{
@@ -60,6 +106,13 @@ func ZzvC19Device() {
 		dev.Spec.Devices = append(dev.Spec.Devices, schedulingv1alpha1.DeviceInfo{Type: gpu, Minor: &minor, UUID: "gpu-" + strconv.Itoa(i), Health: true, Resources: zzvGPURes(total[i], total[i])})
 	}
 
+	const rdma = schedulingv1alpha1.RDMA
+	rdmaMinor := int32(0)
+	dev.Spec.Devices = append(dev.Spec.Devices, schedulingv1alpha1.DeviceInfo{Type: rdma, Minor: &rdmaMinor, UUID: "0000:5f:00.0", Health: true,
+		Resources: corev1.ResourceList{apiext.ResourceRDMA: *resource.NewQuantity(100, resource.DecimalSI)}})
+	vfs := []string{"0000:5f:00.2", "0000:5f:00.3", "0000:5f:00.4"}
+	pl := &Plugin{handle: &zzvC19DevHandle{dev: dev}}
+
 	live := newNodeDeviceCache()
 	live.updateNodeDevice("node", dev)
 	np := zzverif.Param("pods")
@@ -84,17 +137,28 @@ func ZzvC19Device() {
 			zzverif.Assume(zzverif.And(usedCore[m]+core <= total[m], usedMem[m]+mem <= total[m]))
 			usedCore[m] += core
 			usedMem[m] += mem
-			allocs = append(allocs, &apiext.DeviceAllocation{Minor: int32(m), Resources: zzvGPURes(core, mem), ID: "gpu-" + ms})
+			allocs = append(allocs, &apiext.DeviceAllocation{Minor: int32(m), Resources: zzvGPURes(core, mem)})
 		}
 		written[p] = apiext.DeviceAllocations{gpu: allocs}
+		hasVF := zzverif.Choice("pod"+ps+"_virtualFunction", zzverif.Param("vf")) == 1
+		if hasVF {
+			// pod p holds virtual function p (and, by choice, one more) of the RDMA device
+			ext := &apiext.DeviceAllocationExtension{VirtualFunctions: []apiext.VirtualFunction{{Minor: p, BusID: vfs[p]}}}
+			if p == 0 && zzverif.Choice("pod"+ps+"_secondVF", 2) == 1 {
+				ext.VirtualFunctions = append(ext.VirtualFunctions, apiext.VirtualFunction{Minor: 2, BusID: vfs[2]})
+			}
+			written[p][rdma] = []*apiext.DeviceAllocation{{Minor: 0, Resources: corev1.ResourceList{apiext.ResourceRDMA: *resource.NewQuantity(1, resource.DecimalSI)}, Extension: ext}}
+		}
 
 		// Reserve
 		n := live.getNodeDevice("node", false)
 		n.updateCacheUsed(written[p], pods[p], true)
 		// PreBind
 		unbound := pods[p].DeepCopy()
-		err := apiext.SetDeviceAllocations(pods[p], written[p])
-		zzverif.Assert(err == nil, "the allocation can be persisted")
+		cs := framework.NewCycleState()
+		cs.Write(stateKey, &preFilterState{allocationResult: written[p]})
+		st := pl.preBindObject(context.TODO(), cs, pods[p], "node")
+		zzverif.Assert(st.IsSuccess(), "the allocation can be persisted")
 		pods[p].Spec.NodeName = "node"
 		// the informer reports the bound pod to the scheduler that bound it
 		live.onPodUpdate(unbound, pods[p])
@@ -102,11 +166,22 @@ func ZzvC19Device() {
 		// ---- the codec: what was written is what is read
 		got, err := apiext.GetDeviceAllocations(pods[p].Annotations)
 		zzverif.Assert(err == nil && got != nil, "the persisted allocation can be read back")
-		zzverif.Assert(len(got) == 1 && len(got[gpu]) == len(allocs), "the same devices are read back")
+		zzverif.Assert(len(got) == len(written[p]) && len(got[gpu]) == len(allocs), "the same devices are read back")
 		if len(got[gpu]) == len(allocs) {
 			for k := range allocs {
-				zzverif.Assert(got[gpu][k].Minor == allocs[k].Minor && got[gpu][k].ID == allocs[k].ID, "the same device minor and id are read back")
+				zzverif.Assert(got[gpu][k].Minor == allocs[k].Minor && got[gpu][k].ID == "gpu-"+strconv.Itoa(int(allocs[k].Minor)), "the same device minor and id are read back")
 				zzvSameList(got[gpu][k].Resources, allocs[k].Resources, "the amounts read back are the amounts written")
+			}
+		}
+		if hasVF {
+			want := written[p][rdma][0]
+			ok := len(got[rdma]) == 1 && got[rdma][0].Extension != nil && len(got[rdma][0].Extension.VirtualFunctions) == len(want.Extension.VirtualFunctions)
+			zzverif.Assert(ok, "the virtual functions read back are those written")
+			if ok {
+				for k, vf := range want.Extension.VirtualFunctions {
+					zzverif.Assert(got[rdma][0].Extension.VirtualFunctions[k] == vf, "the virtual functions read back are those written")
+				}
+				zzverif.Assert(got[rdma][0].ID == "0000:5f:00.0" && got[rdma][0].Minor == 0, "the same device minor and id are read back")
 			}
 		}
 	}
@@ -167,6 +242,17 @@ func ZzvC19Device() {
 			}
 		}
 	}
+	for _, vf := range vfs {
+		var ina, inb bool
+		if v := a.vfAllocations[rdma]; v != nil {
+			ina = v.allocatedVFs[0].Has(vf)
+		}
+		if v := b.vfAllocations[rdma]; v != nil {
+			inb = v.allocatedVFs[0].Has(vf)
+		}
+		zzverif.Assert(ina == inb, "no virtual function taken before the restart is free after it (and none is taken that was free)")
+	}
+	zzvSameList(a.deviceUsed[rdma][0], b.deviceUsed[rdma][0], "in-use per device after the restart == in-use before it")
 	zzverif.Observe("usedCore", sumCore)
 	zzverif.Observe("freeMem", sumMem)
 	zzverif.Reach("end")
